@@ -227,7 +227,7 @@ pub fn whole_run_direct_subs(d: &Digest, s: usize) -> Vec<(usize, usize, usize)>
         .iter()
         .position(|e| matches!(&e.k, K::Inv { op: OpK::Dispatch { store, .. }, .. } | K::Inv { op: OpK::Thunk { store, .. }, .. } if *store == s))
         .unwrap_or(usize::MAX);
-    let stop_ret = sd.clean_stop.map(|c| d.calls[c].ret.unwrap());
+    let stop_ret = d.end_of_store(s);
     let mut v = vec![];
     for (reg, (sub, st, ci)) in &d.regs {
         if *st != s || *d.sub_kind(*sub) != SubKind::Direct {
@@ -271,7 +271,7 @@ pub fn sub_log(d: &Digest, sub: usize) -> Vec<(ActId, u32, u64, u8, usize)> {
 
 fn c03(d: &Digest, s: usize, out: &mut Vec<Violation>) {
     let sd = &d.stores[s];
-    if sd.clean_stop.is_none() {
+    if d.end_of_store(s).is_none() {
         return;
     }
     let subs = whole_run_direct_subs(d, s);
